@@ -17,8 +17,8 @@ coq/Model/IOSkel.v.  The translation is conservative and fails closed:
     x = <anything else>  (x a tracked variable)       -> Rebind x  (rejected by the analysis
                                                          wherever x may still hold an open file)
     F = False ... F = True; x = open(..) ... if F: x.close()
-                                                      -> Open x ... Close x   (opened-flag)
-    if hasattr(x, "close"): x.close()                 -> Close x / CloseArg x
+                                                      -> Open x ... Guarded x (Close x)   (opened-flag)
+    if hasattr(x, "close"): x.close()                 -> Guarded x (Close x / CloseArg x)
     a, b = helper(..)  /  v = helper(..)              -> Call skel_helper   (helper = one of the
                                                          translated functions; the returned handle
                                                          and the target variable share one id)
@@ -27,10 +27,10 @@ coq/Model/IOSkel.v.  The translation is conservative and fails closed:
   rebinds a tracked variable raises SkelError — Gen/Skel.v then does not compile and every
   theorem of Props/C20.v fails.
 
-Why `if F: x.close()` and `if hasattr(x,"close"): x.close()` are plain `Close x`: when the
-guard is false the variable does not hold a file lasio opened (checked: F is set only next to
-the `open`, never reset), so removing x from the owned-open set is a no-op; the model only adds
-a spurious possibility of raising, which is an over-approximation.
+`Guarded x b` runs b or — only when x does not hold an open file lasio opened — skips it: when the
+guard of `if F: x.close()` / `if hasattr(x,"close"): x.close()` is false the variable does not hold
+a file lasio opened (checked: F is set only next to the `open` and never reset; a file object has a
+close attribute).
 """
 import ast
 import os
@@ -488,7 +488,7 @@ class FnTr:
             x = self.flags[s.test.id]
             if len(s.body) == 1 and not s.orelse and is_close_stmt(s.body[0]) == x:
                 c = self.close_of(x, s.body[0], True)
-                return [c + ("if %s" % s.test.id,)]
+                return [("Guarded", self.hid[x], c, L, "if %s" % s.test.id)]
             fail(s, "opened-flag %s used outside the recognised idiom" % s.test.id)
         # if hasattr(x, "close"): x.close()
         t = s.test
@@ -500,7 +500,7 @@ class FnTr:
                 if x in self.flags.values():
                     fail(s, "unguarded close() of flag-guarded variable %s" % x)
                 c = self.close_of(x, s.body[0], False)
-                return [c + ('if hasattr(%s, "close")' % x,)]
+                return [("Guarded", self.hid[x], c, L, 'if hasattr(%s, "close")' % x)]
             fail(s, 'hasattr(.., "close") outside the recognised idiom')
         out = self.expr_effect(s.test, "if-test", L)
         a = self.block(s.body)
@@ -603,6 +603,8 @@ def show(t, ind):
         return pad + "Loop (* L%d *)\n%s" % (t[2], paren(t[1], ind + 1))
     if k in ("TryFinally", "TryExcept"):
         return pad + "%s (* L%d *)\n%s\n%s" % (k, t[3], paren(t[1], ind + 1), paren(t[2], ind + 1))
+    if k == "Guarded":
+        return pad + "Guarded %d (* L%d %s *)\n%s" % (t[1], t[3], t[4], paren(t[2], ind + 1))
     if k == "With":
         return pad + "With %d (* L%d %s *)\n%s" % (t[1], t[3], t[4], paren(t[2], ind + 1))
     raise SkelError("internal: unknown node %r" % (k,))
